@@ -263,7 +263,12 @@ def run_case(inp):
             d = np.array(inp["d"], dtype=float)
             big = _C04._template(inp["seed"], shape, 4, 0.9)
             sub2 = np.roll(big, d.astype(int), axis=(0, 1, 2))
-            for name in ("ZNCC", "NCC", "PCC", "FSC"):
+            if inp.get("offset"):
+                # a sub-volume whose mean is large compared with its contrast (raw tomogram intensities)
+                sub2 = (2.0 * sub2 + float(inp["offset"]) * float(big.std())).astype(np.float32)
+            # (with an offset only the real-space models: a phase / shell correlation of an image dominated by its
+            # DC term has no usable peak, and its coarse maximum and refined shift may differ by up to half a pixel)
+            for name in (("ZNCC", "NCC") if inp.get("offset") else ("ZNCC", "NCC", "PCC", "FSC")):
                 model = M[name](big, None, **kw)
                 m = (2.0, 2.0, 2.0)
                 lds = np.asarray(model.landscape(sub2, m, quaternion=quat, pos=pos))
@@ -362,6 +367,10 @@ def oracle(rng, thorough, deep=False, hints=None):
                               quat=q, model=["ZNCC", "NCC", "PCC", "FSC"][it % 4],
                               d=[int(x) for x in rng.integers(-2, 3, size=3)],
                               history=2 if (kind == "pearson" and it % 2) else 0))
+    # always: landscape maximum vs alignment on sub-volumes with a large intensity offset
+    for it, off in enumerate([3.0, 40.0]):
+        cases.append(dict(kind="argmax", shape=[14, 15, 16][it:] + [14, 15, 16][:it], seed=int(rng.integers(0, 10 ** 6)), mask=None, cutoff=None,
+                          tilt=None, quat=[0, 0, 0, 1.0], model="NCC", d=[[1, -1, 2], [2, 0, -1]][it], history=0, offset=off))
     # cutoffs between 0.5 (Nyquist along an axis) and 0.866 (box diagonal) still filter; no wedge, every model
     for it, co in enumerate([0.5, 0.6, 0.8, 0.55][: 4 if big else 2]):
         for kind in ("pearson", "agree"):
